@@ -81,6 +81,11 @@ def repeats(n):
     yield "$[?" + " && ".join(["@.a"] * max(1, n // 7)) + "]"
     yield "$[?" + " || ".join(["@.a"] * max(1, n // 7)) + "]"
     yield "$[?" + " && ".join(["@.a == 1"] * max(1, n // 12)) + "]"
+    # the shortest operands there are: the most operands a query of n characters can chain
+    yield "$[?" + "&&".join(["@"] * max(1, (n - 4) // 3 + 1)) + "]"
+    yield "$[?" + "||".join(["$"] * max(1, (n - 4) // 3 + 1)) + "]"
+    yield "$[?" + "&&".join(["@", "!@"] * max(1, (n - 4) // 7 + 1)) + "]"
+    yield "$[?" + "||".join(["1<2"] * max(1, (n - 4) // 5 + 1)) + "]"
     yield "$[?@.a == '" + "x" * n + "']"
     yield "$['" + "\\u0041" * max(1, n // 6) + "']"
     yield "$[?" + "!" .join(["@.a"] * max(1, n // 4)) + "]"
